@@ -460,6 +460,9 @@ def _strftime(value, fmt):
     return value.strftime(fmt.replace('%Y', '%04d' % value.year))
 
 
+_NO_TIME = object()
+
+
 class Dynamic(Parameter):
     """
     Parameter whose value can be generated dynamically by a callable
@@ -516,9 +519,9 @@ class Dynamic(Parameter):
             gen._Dynamic_time_fn = obj._Dynamic_time_fn
 
         gen._Dynamic_last = None
-        # Would have usede None for this, but can't compare a fixedpoint
-        # number with None (e.g. 1>None but FixedPoint(1)>None can't be done)
-        gen._Dynamic_time = -1
+        # Not a time: compares unequal to every time value (-1 is a
+        # perfectly good time, at which the first read must generate too)
+        gen._Dynamic_time = _NO_TIME
 
         gen._saved_Dynamic_last = []
         gen._saved_Dynamic_time = []
